@@ -37,8 +37,10 @@ impl PartialEq for DeliveryTag {
     fn eq(&self, o: &Self) -> (r: bool) ensures r == (*self == *o) { unimplemented!() }
 }
 
-#[verifier::external_body]
-pub struct DeliveryState { _p: u8 }
+opaque!(OtherState);
+pub struct Received { pub section_number: u32, pub section_offset: u64 }
+/// messaging::DeliveryState reduced to the one variant the receiver looks into (Received: the resumption point); the outcomes and the transactional state are `Other`
+pub enum DeliveryState { Received(Received), Other(OtherState) }
 impl Clone for DeliveryState { #[verifier::external_body] fn clone(&self) -> (r: Self) ensures r == *self { unimplemented!() } }
 impl DeliveryState {
     pub uninterp spec fn spec_is_terminal(&self) -> bool;
@@ -155,23 +157,37 @@ impl IncompleteTransfer {
 //@@ end
 }
 
+impl IncompleteTransfer {
+    /// resumption (state Received{section-number, section-offset} on a transfer): trims the buffer to the point the sender resumes from. ASSUMED (function not under contract): it only trims
+    #[verifier::external_body]
+    pub fn keep_buffer_till_section_number_and_offset(&mut self, section_number: u32, section_offset: u64)
+        ensures final(self).wf(), concat(final(self).buffer@).len() <= concat(old(self).buffer@).len(), final(self).performative == old(self).performative,
+    { unimplemented!() }
+}
 // ---- the link endpoint as seen by ReceiverInner ----
 pub struct Delivery { pub performative: Transfer, pub bytes: Ghost<Seq<u8>>, pub section_number: u32, pub section_offset: u64 }
 pub trait PayloadSrc: Sized { spec fn src_bytes(&self) -> Seq<u8>; }
 impl PayloadSrc for Vec<Payload> { open spec fn src_bytes(&self) -> Seq<u8> { concat(self@) } }
 impl<'a> PayloadSrc for &'a Payload { open spec fn src_bytes(&self) -> Seq<u8> { (*self)@ } }
-pub struct LinkS { pub notes: Ghost<Seq<(DeliveryTag, u32, u64)>> }
+pub struct LinkS { pub notes: Ghost<Seq<(DeliveryTag, u32, u64)>>, pub told: Ghost<Seq<Option<DeliveryTag>>> }
 impl LinkS {
+    /// ReceiverLink::on_transfer_state: records the state of the delivery with that tag in the link's unsettled map; its first statement refuses an absent tag (DeliveryTagIsNone).
+    /// `told`: under which tag the link was told a delivery state
+    #[verifier::external_body]
+    pub fn on_transfer_state(&mut self, delivery_tag: &Option<DeliveryTag>, settled: Option<bool>, state: DeliveryState) -> (r: Result<(), ReceiverTransferError>)
+        ensures final(self).notes == old(self).notes, final(self).told@ == old(self).told@.push(*delivery_tag),
+            *delivery_tag is None ==> r is Err,
+    { unimplemented!() }
     #[verifier::external_body]
     pub fn on_incomplete_transfer(&mut self, delivery_tag: DeliveryTag, section_number: u32, section_offset: u64)
-        ensures final(self).notes@ == old(self).notes@.push((delivery_tag, section_number, section_offset)),
+        ensures final(self).notes@ == old(self).notes@.push((delivery_tag, section_number, section_offset)), final(self).told == old(self).told,
     { unimplemented!() }
     #[verifier::external_body]
     pub fn on_complete_transfer<P: PayloadSrc>(&mut self, transfer: Transfer, payload: P, section_number: u32, section_offset: u64) -> (r: Result<Delivery, ReceiverTransferError>)
         ensures
             r is Ok ==> r->Ok_0.performative == transfer && r->Ok_0.bytes@ == payload.src_bytes()
                 && r->Ok_0.section_number == section_number && r->Ok_0.section_offset == section_offset,
-            final(self).notes == old(self).notes,
+            final(self).notes == old(self).notes, final(self).told == old(self).told,
     { unimplemented!() }
 }
 pub struct AtomicU32S { pub v: u32 }
@@ -217,13 +233,6 @@ impl ReceiverInner {
         ensures final(self).incomplete_transfer == old(self).incomplete_transfer, final(self).link == old(self).link, final(self).received == old(self).received,
     { unimplemented!() }
 
-    /// resumption path (transfer.state carries Received{..}): may trim the buffer; outside the contracts below, which
-    /// are stated for transfers without a state
-    #[verifier::external_body]
-    fn on_transfer_state(&mut self, delivery_tag: &Option<DeliveryTag>, settled: Option<bool>, state: DeliveryState) -> (r: Result<(), RecvError>)
-        ensures final(self).wf(), final(self).buffered().len() <= old(self).buffered().len(),   // ASSUMED (function not under contract): it only trims the buffer
-    { unimplemented!() }
-
     #[verifier::external_body]
     fn on_resuming_transfer(&mut self, transfer: Transfer, payload: Payload) -> (r: Result<Option<Delivery>, RecvError>)
     { unimplemented!() }
@@ -250,6 +259,15 @@ impl ReceiverInner {
     ensures true,
 //@@ end
 
+//@@ fn file=fe2o3-amqp/src/link/receiver.rs impl=`~impl<L>ReceiverInner<L>where` name=on_transfer_state
+//@@ subst `.map_err(Into::into)` => `.map_err(|e: ReceiverTransferError| -> (o: RecvError) { RecvError::from(e) })` rule=optional-R17
+//@@ spec
+    ensures
+        final(self).wf() || !old(self).wf(), final(self).buffered().len() <= old(self).buffered().len(),
+        (final(self).incomplete_transfer is Some) == (old(self).incomplete_transfer is Some),
+        final(self).link.told@ == old(self).link.told@.push(if delivery_tag is Some { *delivery_tag } else { match old(self).incomplete_transfer { Some(i) => i.performative.delivery_tag, None => None } }),   // [C10.continuation.state-under-the-deliverys-tag] a continuation frame may omit the delivery-tag: a delivery state carried by such a frame is recorded under the tag of the delivery being reassembled (its first frame's), it is not refused for lack of a tag
+//@@ end
+
 //@@ fn file=fe2o3-amqp/src/link/receiver.rs impl=`~impl<L>ReceiverInner<L>where` name=on_incomplete_transfer
 //@@ subst `Some(Box::new(incomplete))` => `Some(incomplete)` rule=R8
 //@@ spec
@@ -258,6 +276,7 @@ impl ReceiverInner {
     ensures
         r is Ok ==> final(self).incomplete_transfer is Some && final(self).buffered() =~= old(self).buffered() + payload@,   // [C10.more.buffered-in-order] while `more` is set the payload is only appended (arrival order) ... [C16.recv.partial-delivery-parked-in-receiver] and it is parked in the receiver itself, so a recv future dropped between two frames loses nothing
         r is Ok && old(self).incomplete_transfer is None ==> final(self).incomplete_transfer->Some_0.performative == transfer,
+        r is Err ==> final(self).incomplete_transfer is None,      // [C10.more.contradiction-discards-partial] a continuation frame that contradicts the delivery being reassembled is reported AND the partial delivery is discarded: a later frame (which may legally carry no id / tag / format to contradict) cannot be spliced onto it
         final(self).wf(),
 //@@ entry
         proof {
@@ -296,7 +315,8 @@ impl ReceiverInner {
     ensures
         transfer.aborted ==> r is Ok && r->Ok_0 is None && final(self).incomplete_transfer is None,         // [C10.abort] an aborted delivery yields no message and leaves nothing behind for the next one
         !transfer.aborted && transfer.state is None && transfer.more ==> (r is Ok ==> r->Ok_0 is None
-            && final(self).buffered() =~= old(self).buffered() + payload@),                                 // [C10.more.nothing-delivered] nothing is handed to the application before the final frame
+            && final(self).buffered() =~= old(self).buffered() + payload@),
+        !transfer.aborted && transfer.state is None && transfer.more && r is Err ==> final(self).incomplete_transfer is None,   // [C10.more.contradiction-discards-partial]                                 // [C10.more.nothing-delivered] nothing is handed to the application before the final frame
         !transfer.aborted && transfer.state is None && !transfer.more && !transfer.resume ==> final(self).incomplete_transfer is None
             && (r is Ok ==> r->Ok_0 is Some && r->Ok_0->Some_0.bytes@ =~= old(self).buffered() + payload@),   // [C10.final.exactly-once] the final frame yields exactly one delivery made of all payloads in order
 //@@ end
